@@ -9,14 +9,14 @@ from .. import chain_engine as ce
 
 LEVEL = "model_checking"
 MUTANTS = {"gt": "Monotone", "thr_from_new": "NoTakeover", "keys_from_new": "NoTakeover", "noself": "NeverStuck",
-           "keep_on_reject": "ChainInv"}
+           "noself_stranded": "NotStranded", "keep_on_reject": "ChainInv"}
 
 
 def check(run):
     quick = run.tier == "quick"
     run.rule = ("RootChain.tla: TLC explores the whole reachable graph (honest/careless rotations, compromises, every envelope the "
                 "adversary can assemble incl. replays, roll-backs, skips, stripped and padded variants, persist/restart) and checks "
-                "NoTakeover(Step), Monotone, ChainInv, NeverStuck, PersistNeutral, OfferEffect; -simulate behaviours (4 keys, 6 versions) "
+                "NoTakeover(Step), Monotone, ChainInv, NeverStuck, NotStranded, PersistNeutral, OfferEffect; -simulate behaviours (4 keys, 6 versions) "
                 "are stepped through a real client loop on real files; seeded random histories (5 keys, 9 versions) are judged by "
                 "Trace_RootChain.tla; distinct = distinct behaviours/histories, all non-trivial (every one contains offers)")
     run.tlc("RootChain", "RootChain_quick.cfg", timeout=900)
